@@ -570,6 +570,11 @@ func (c *compiler) compileFunc(compilerScope compilerScopeType, Ast ast.Ast, Arg
 	newC.Code.Argcount = int32(len(Args.Args))
 	newC.Code.Kwonlyargcount = int32(len(Args.Kwonlyargs))
 
+	// Load decorators onto stack - they come first so that they end up
+	// underneath the function once its defaults, keyword defaults and
+	// annotations have been consumed by MAKE_FUNCTION
+	c.Exprs(DecoratorList)
+
 	// Defaults
 	c.Exprs(Args.Defaults)
 
@@ -611,9 +616,6 @@ func (c *compiler) compileFunc(compilerScope compilerScopeType, Ast ast.Ast, Arg
 		num_annotations++ // include the tuple
 		c.LoadConst(annotations)
 	}
-
-	// Load decorators onto stack
-	c.Exprs(DecoratorList)
 
 	// Make function or closure, leaving it on the stack
 	posdefaults := uint32(len(Args.Defaults))
